@@ -762,7 +762,15 @@ func rdPhase(ctx *core.Ctx, cov *core.Cov, prop string) error {
 					ctx.Note("drift (a crash is a C06 matter; in a toy group an identity point may cause it): %s", fmt.Sprintf("%s: new member %d panicked: %s", c.id(), j, got.Detail))
 					judged = true
 				case got.Out == "abort" && fmt.Sprint(cul) != fmt.Sprint(want.Culprits) && !(len(cul) == 0 && len(want.Culprits) == 0):
-					if !faults || zero || got.ErrRound != 4 {
+					named := len(want.Culprits) == 0
+					for _, g := range cul {
+						for _, w := range want.Culprits {
+							if g == w {
+								named = true
+							}
+						}
+					}
+					if !faults || zero || got.ErrRound != 4 || named {
 						ctx.Note("drift: %s: new member %d names %v in round %d, the model names %v in round 4 (a degenerate toy value or an earlier stop: outside the properties)", c.id(), j, cul, got.ErrRound, want.Culprits)
 					} else {
 						ctx.Report(key+":blame", fmt.Sprintf("%s: new member %d names %v, the model names %v (%s)", c.id(), j, got.Culprits, want.Culprits, got.Detail), c)
